@@ -1,7 +1,7 @@
 #!/usr/bin/env python3
 """Evaluate a behaviour-preserving refactoring produced by an independent sub-agent.
 
-usage: tools/try_refactor.py <PROP> <N> [--src DIR] [--keep]
+usage: tools/try_refactor.py <PROP> <N> [--src DIR] [--keep] [--tag r|e]
 
 1. in a scratch worktree: the agent's check test passes without the refactoring; the patch
    applies; the baseline suite passes with it; the check test passes with it
@@ -35,7 +35,8 @@ def main():
     src = f"/tmp/rf-{prop}/_refactor"
     if "--src" in sys.argv:
         src = sys.argv[sys.argv.index("--src") + 1]
-    tid = f"{prop}-r{n}"
+    tag = sys.argv[sys.argv.index("--tag") + 1] if "--tag" in sys.argv else "r"
+    tid = f"{prop}-{tag}{n}"
     diff = os.path.join(src, f"refactor{n}.diff")
     test = os.path.join(src, f"check{n}_test.py")
     assert os.path.exists(diff), diff
@@ -97,7 +98,7 @@ def main():
         shutil.copy(diff, os.path.join(dst, "patch.diff"))
         if os.path.exists(test):
             shutil.copy(test, os.path.join(dst, os.path.basename(test)))
-        json.dump({"id": tid, "about_property": prop, "source": "independent sub-agent asked for a behaviour-preserving refactoring", "suite_with": result["suite_with"], "check_with": result.get("check_with"), "check_without": result.get("check_without")}, open(os.path.join(dst, "meta.json"), "w"), indent=1)
+        json.dump({"id": tid, "about_property": prop, "source": "independent sub-agent asked for a behaviour-preserving refactoring" if tag == "r" else "independent sub-agent asked for a realistic property-preserving evolution (feature / hardening / logging / performance change)", "suite_with": result["suite_with"], "check_with": result.get("check_with"), "check_without": result.get("check_without")}, open(os.path.join(dst, "meta.json"), "w"), indent=1)
     return 0
 
 
